@@ -2,6 +2,9 @@
 //! Usage: acb_verif_harness <family> --seed N --count N
 //! Writes protocol lines (see lean/Driver/Proto.lean) to stdout.
 mod common;
+mod fx;
+mod fxcommon;
+mod fxmain;
 mod ledger;
 mod rng;
 
@@ -64,6 +67,7 @@ fn main() {
                 std::process::exit(2);
             }
         }
+        f if f.starts_with("fx") => fxmain::run(&args, seed, count, &mut w),
         f => {
             eprintln!("unknown family {}", f);
             std::process::exit(2);
